@@ -200,16 +200,24 @@ def merge_obligations(ctx, rep, umn, rule_c="R08c", only_merge=False):
     if len(loops) != 1:
         problems.add(f"{len(loops)} loops over the link entries (expected one)")
     n_paths = 0
-    for loop in loops:
+    for loop, tval in [(l, t) for l in loops for t in ("X", "-", "1")]:
         lvar = norm(loop.target)
-        w = Walker(prog, ctx.resolver, merge_loops=True)
+
+        def _type(call, target, st, _t=tval, _v=lvar):
+            # the block's type character: X and - mean "hide", anything else is an ordinary block
+            if isinstance(call.func, ast.Attribute) and call.func.attr == "gettype" and norm(call.func.value) == _v and not call.args:
+                return Const(_t)
+            return None
+
+        w = Walker(prog, ctx.resolver, merge_loops=True, call_value=_type)
         w.frame = (ml, umn)
         w._budget = 100000
         for kind, val, st in w.exec_block(loop.body, State()):
             if kind == "raise":
                 continue
             n_paths += 1
-            needs = indict = isx = None
+            needs = indict = None
+            isx = tval in ("X", "-")
             still_listed = False
             for e in st.events:
                 if e.kind != "test" or e.extra is None:
@@ -220,9 +228,6 @@ def merge_obligations(ctx, rep, umn, rule_c="R08c", only_merge=False):
                     needs = bool(e.extra)
                 elif isinstance(n, ast.Compare) and len(n.ops) == 1 and norm(n.left) == f"{lvar}.selector" and dname and norm(n.comparators[0]) == dname:
                     indict = bool(e.extra) if isinstance(n.ops[0], ast.In) else (not bool(e.extra) if isinstance(n.ops[0], ast.NotIn) else indict)
-                elif isinstance(n, ast.Compare) and len(n.ops) == 1 and isinstance(n.comparators[0], ast.Constant) and n.comparators[0].value == "X" \
-                        and "gettype" in norm(n.left) or (isinstance(n, ast.Compare) and norm(n.left).endswith(".type") and isinstance(n.comparators[0], ast.Constant) and n.comparators[0].value == "X"):
-                    isx = bool(e.extra) if isinstance(n.ops[0], ast.Eq) else (not bool(e.extra) if isinstance(n.ops[0], ast.NotEq) else isx)
                 elif isinstance(n, ast.Compare) and len(n.ops) == 1 and isinstance(n.ops[0], ast.In) and norm(n.comparators[0]) == "self.fileentries" and e.extra:
                     still_listed = True
             appends = [e for e in st.events if e.kind == "call" and isinstance(e.node.func, ast.Attribute) and e.node.func.attr in ("append", "insert", "extend")
@@ -237,7 +242,7 @@ def merge_obligations(ctx, rep, umn, rule_c="R08c", only_merge=False):
                     problems.add("the selector index is shrunk while link blocks are still being processed: a later block for a hidden file is taken for a new entry and the file shows up again")
             if shrinks:
                 problems.add("the selector index is shrunk while link blocks are still being processed: a later block for a hidden file is taken for a new entry and the file shows up again")
-            where = f"[needsmerge={needs}, names a walked file={indict}, Type=X={isx}]"
+            where = f"[needsmerge={needs}, names a walked file={indict}, Type={tval}]"
             if needs is False or (needs is True and indict is False):
                 if len(appends) != 1 or not (appends[0].node.args and norm(appends[0].node.args[-1]) == lvar) or removes or merges:
                     problems.add(f"{where}: a block that adds a new entry must be appended once and touch nothing else "
@@ -252,8 +257,8 @@ def merge_obligations(ctx, rep, umn, rule_c="R08c", only_merge=False):
                     if not guarded:
                         problems.add(f"{where}: `{norm(r.node)[:50]}` raises ValueError when another block has hidden the same file already "
                                      "(the directory request is then left unanswered)")
-                if not removes and still_listed:
-                    problems.add(f"{where}: the entry is still listed but not removed")
+                if not removes and (still_listed or not any(e.kind == "test" and "self.fileentries" in norm(e.node) for e in st.events)):
+                    problems.add(f"{where}: a block with Type={tval} for a walked file does not remove the file's entry (Type=X and Type=- both hide)")
             elif needs is True and indict is True and isx is False:
                 if appends or removes or len(merges) != 1:
                     problems.add(f"{where}: a block for a walked file must be merged into its entry exactly once and add nothing "
